@@ -1,0 +1,18 @@
+//go:build verif
+
+// Verification hook for property C16 (add-only, compiled only with -tags verif): evaluates the
+// operator of a compiled rule on a probe value (which data file did @pmFromFile load?).
+
+package corazawaf
+
+// VerifC16ProbeOperator evaluates the operator of the idx-th rule of the WAF on value (the raw
+// operator result, the rule's negation is not applied); false when the rule has no operator.
+func VerifC16ProbeOperator(w *WAF, idx int, value string) bool {
+	rules := w.Rules.GetRules()
+	if idx < 0 || idx >= len(rules) || rules[idx].operator == nil {
+		return false
+	}
+	tx := w.NewTransaction()
+	defer tx.Close()
+	return rules[idx].operator.Operator.Evaluate(tx, value)
+}
